@@ -27,6 +27,7 @@ func init() {
 			{ID: "R05.1", Template: "T-WIDTH", Text: "interpreter shift/rotate counts are reduced modulo the operand / lane width", Min: 16},
 			{ID: "R05.2", Template: "T-WIDTH", Text: "amd64 vector-shift lowerings mask the count with lane-bits − 1", Min: 3},
 			{ID: "R05.3", Template: "T-SIBLING", Text: "integer division and trapping truncation raise the same set of trap kinds in the interpreter, amd64 and arm64", Min: 5},
+			{ID: "R05.5", Template: "T-WIDTH", Text: "SSA passes apply a width-derived shift-count modulus to scalar shifts only", Min: 1},
 			{ID: "R05.4", Template: "T-WHOCALLS", Text: "float rounding/min/max arms use the WasmCompat helper of their width, never the math package's versions", Min: 10},
 		},
 		Run: runC05,
@@ -35,6 +36,7 @@ func init() {
 			{Name: "i64-shr-modulo-32", File: "internal/engine/interpreter/interpreter.go", Old: "ce.pushValue(v1 >> (v2 % 64))", New: "ce.pushValue(v1 >> (v2 % 32))", Rule: "R05.1", Substr: "operationKindShr"},
 			{Name: "v128-shl-i16-modulo-8", File: "internal/engine/interpreter/interpreter.go", Old: "\t\t\tcase shapeI16x8:\n\t\t\t\ts = s % 16\n\t\t\t\tlo = uint64(uint16(lo<<s)) |", New: "\t\t\tcase shapeI16x8:\n\t\t\t\ts = s % 8\n\t\t\t\tlo = uint64(uint16(lo<<s)) |", Rule: "R05.1", Substr: "V128Shl"},
 			{Name: "amd64-vishl-i32-mask-0xf", File: "internal/engine/wazevo/backend/isa/amd64/machine_vec.go", Old: "\tcase ssa.VecLaneI32x4:\n\t\tmodulo = 0x1f\n\t\tshiftOp = sseOpcodePslld", New: "\tcase ssa.VecLaneI32x4:\n\t\tmodulo = 0xf\n\t\tshiftOp = sseOpcodePslld", Rule: "R05.2", Substr: "lowerVIshl"},
+			{Name: "nop-elimination-covers-vector-shifts", File: "internal/engine/wazevo/ssa/pass.go", Old: "\t\t\tcase OpcodeIshl, OpcodeSshr, OpcodeUshr:\n", New: "\t\t\tcase OpcodeIshl, OpcodeSshr, OpcodeUshr, OpcodeVIshl, OpcodeVSshr, OpcodeVUshr:\n", Rule: "R05.5", Substr: "passNopInstElimination"},
 			{Name: "interp-div-without-overflow-trap", File: "internal/engine/interpreter/interpreter.go", Old: "\t\t\t\tif n == math.MinInt32 && d == -1 {\n\t\t\t\t\tpanic(wasmruntime.ErrRuntimeIntegerOverflow)\n\t\t\t\t}\n", New: "", Rule: "R05.3", Substr: "interpreter"},
 			{Name: "interp-min-through-math", File: "internal/engine/interpreter/interpreter.go", Old: "moremath.WasmCompatMin32(", New: "minF32(", Old2: "func i32Abs(v uint32) uint32 {", New2: "func minF32(a, b float32) float32 { return float32(math.Min(float64(a), float64(b))) }\n\nfunc i32Abs(v uint32) uint32 {", Rule: "R05.4", Substr: "Min"},
 		},
@@ -297,6 +299,55 @@ func runC05(c *core.Ctx) {
 					strings.Join(bad, "; ")+": the vector shift uses the count modulo a different power of two than the lane width")
 			}
 		})
+	}
+
+	// ---- R05.5 SSA passes: a shift-count modulus taken from the scalar type is applied to scalar shifts only
+	if sp := c.Pkg("internal/engine/wazevo/ssa"); sp != nil {
+		sinfo := sp.TypesInfo
+		n := 0
+		core.AllFuncDecls(sp, func(fd *ast.FuncDecl) {
+			if !strings.HasPrefix(fd.Name.Name, "pass") {
+				return
+			}
+			ast.Inspect(fd.Body, func(x ast.Node) bool {
+				cc, ok := x.(*ast.CaseClause)
+				if !ok {
+					return true
+				}
+				var scalar, vector []string
+				for _, l := range cc.List {
+					switch nm := constNameOf(sinfo, l); nm {
+					case "OpcodeIshl", "OpcodeSshr", "OpcodeUshr", "OpcodeRotl", "OpcodeRotr":
+						scalar = append(scalar, nm)
+					case "OpcodeVIshl", "OpcodeVSshr", "OpcodeVUshr":
+						vector = append(vector, nm)
+					}
+				}
+				if len(scalar)+len(vector) == 0 {
+					return true
+				}
+				// does the arm derive a modulus from the scalar bit width?
+				usesBits := false
+				ast.Inspect(cc, func(y ast.Node) bool {
+					if call, ok := y.(*ast.CallExpr); ok {
+						if se, ok := call.Fun.(*ast.SelectorExpr); ok && se.Sel.Name == "Bits" {
+							usesBits = true
+						}
+					}
+					return true
+				})
+				if !usesBits {
+					return true
+				}
+				n++
+				c.Check(len(vector) == 0, "R05.5", "SSA pass "+fd.Name.Name+": the width-derived shift modulus is applied to scalar shifts only", cc.Pos(), strings.Join(scalar, ", "),
+					"the arm also covers "+strings.Join(vector, ", ")+" but takes the modulus from the operand type's bit width: for a vector shift the count is taken modulo the *lane* width, so e.g. an i64x2 shift by 32 is treated as a no-op and removed")
+				return true
+			})
+		})
+		if n == 0 {
+			c.Discharge("R05.5", "no SSA pass reduces shift counts by the operand width", 0, "nothing to check")
+		}
 	}
 
 	// ---- R05.3 trap kinds
